@@ -93,6 +93,20 @@ def two_smooths_case(col, rng):
     col.add(None if bad is None else {"sig": "native::gibbs::tau2_two_smooths", "what": bad, "input": {"smooths": ["sloc (loc, rank-deficient RW2 penalty, a=0.5, b=0.3)", "sscale (scale, 3*I, a=4, b=2.5)"]}})
 
 
+def model_conditional_case(col, seed):
+    """the kernel against THE MODEL in binary64 (a fresh interpreter with JAX_ENABLE_X64=1: in binary32 the quadratic form of coefficients with a large
+    null-space component is rounding noise), see rtc/c13_x64.py"""
+    import json, os, subprocess, sys
+    env = dict(os.environ, JAX_ENABLE_X64="1", JAX_PLATFORMS="cpu")
+    p_ = subprocess.run([sys.executable, "-m", "rtc.c13_x64", str(seed)], capture_output=True, text=True, env=env, cwd=os.path.dirname(os.path.dirname(os.path.abspath(__file__))), timeout=600)
+    lines = [l for l in p_.stdout.splitlines() if l.startswith("RESULT ")]
+    if not lines:
+        col.add({"sig": "native::gibbs::x64_probe_failed", "what": p_.stderr[-300:], "input": {"seed": seed}})
+        return
+    for r in json.loads(lines[0][7:]):
+        col.add(r)
+
+
 def discrete_case(col, rng):
     values = [0.0, 1.0, 2.5]
     probs = [0.2, 0.5, 0.3]
@@ -365,6 +379,11 @@ def bounded(tier, seed):
             col.add({"sig": f"native::gibbs::exception::{type(e).__name__}", "what": str(e)[:200], "input": {"scenario": "logits prior"}})
         n += 1
         try:
+            model_conditional_case(col, seed)
+        except Exception as e:
+            col.add({"sig": f"native::gibbs::exception::{type(e).__name__}", "what": str(e)[:200], "input": {"scenario": "kernel vs model density (binary64 process)"}})
+        n += 2
+        try:
             two_smooths_case(col, rng)
         except Exception as e:
             col.add({"sig": f"native::gibbs::exception::{type(e).__name__}", "what": str(e)[:200], "input": {"scenario": "two smooths in one model"}})
@@ -397,6 +416,7 @@ def bounded(tier, seed):
             n += 1
     return {"evaluations": col.evals, "distinct_nontrivial": n,
             "rule": (CORE_RULE + "; " + f"BOUNDED: DistRegBuilder models with a full-rank and a rank-deficient (second-difference) penalty, hyperparameters a, b left as built or changed AFTER the kernel was created, plus a penalty scaled by 1e-7 and a full-rank penalty with one eigenvalue of 1e-8 (rank by matrix_rank vs. eigenvalue thresholds): "
+                     "the inverse-gamma shape and scale solved from three evaluations of the MODEL's log-density in tau2 (coefficients 100 + noise, b = 0.001, first-difference and full-rank penalty) against the scale the kernel's draws reveal (fresh binary64 interpreter process); "
                      "the kernel's draw for a fixed key equals b*/gamma(key, a*) with a* = a + rank/2, b* = b + beta'K beta/2 from the state, and model log-density minus log IG(a*, b*) is constant "
                      "over a tau2 grid; two smooths with different penalties and hyper-parameters in one model, kernels used in both orders; finite-discrete kernel with the grid taken from a logits-parameterised prior with a float32-zero-probability outcome; finite-discrete kernel on outcome grids of 150 / 128 points (one logit per outcome, captured at the sampler); finite-discrete kernel on k ~ FiniteDiscrete with a downstream Normal likelihood: draw = outcomes[categorical(key, joint log-densities)], eager and jit; a model in which the discrete variable parameterises the prior of a parameter and the distribution of an unflagged variable (logits captured at jax.random.categorical and compared with the joint log-density up to a constant); the same for a Bernoulli variable with derived and with explicitly given (unsorted) outcomes. "
                      f"Both kernels also through GibbsKernel.transition with integer start values (stored value = draw). The sampling distributions themselves are not tested (sampler primitives trusted). seed={seed}, {reps} repetition(s)."),
